@@ -78,7 +78,113 @@ def cases(rng, tier):
     out += _float_cases(rng, 400 if tier == "quick" else 6000)
     out += _mask_cases(rng, 300 if tier == "quick" else 4000)
     out += _print_cases(rng, 60 if tier == "quick" else 600)
+    out += _slice_cases(rng, 150 if tier == "quick" else 2000)
+    out += _repeat_cases(rng, 300 if tier == "quick" else 4000)
     return out
+
+
+SLICE_READS = ["str", "sum", "tolist", "iter", "ravel", "len", "row", "neg", "nothing"]
+
+
+def _slice_cases(rng, n):
+    """per-row windows (ragged_slice) of a ragged array or a matrix: what the result holds after a later write into the source must not
+    depend on whether it was looked at before that write"""
+    out = []
+    for _ in range(n):
+        lens = [rng.randint(0, 5) for _ in range(rng.randint(1, 5))]
+        if rng.random() < 0.3:
+            lens = [rng.randint(1, 5)] * len(lens)          # a matrix source
+        if sum(lens) == 0:
+            lens[0] = 2
+        ss = [rng.randint(0, l) for l in lens]; es = [rng.randint(s, l) for s, l in zip(ss, lens)]
+        out.append({"rs": {"lens": lens, "matrix": len(set(lens)) == 1 and rng.random() < 0.6, "starts": ss, "ends": es,
+                           "reads": [rng.choice(SLICE_READS) for _ in range(rng.randint(1, 2))], "write": rng.choice(["cell", "row", "fill", "flat"])}})
+    return out
+
+
+def _run_slice(q, with_reads):
+    import numpy as np
+    from npstructures import RaggedArray, ragged_slice
+    n = sum(q["lens"])
+    src = RaggedArray(np.arange(1, n + 1), list(q["lens"]))
+    if q["matrix"]:
+        src = np.arange(1, n + 1).reshape(len(q["lens"]), q["lens"][0])
+    s = ragged_slice(src, np.array(q["starts"]), np.array(q["ends"]))
+    if with_reads:
+        for kind in q["reads"]:
+            if kind == "str": str(s); repr(s)
+            elif kind == "sum": s.sum(axis=-1)
+            elif kind == "tolist": s.tolist()
+            elif kind == "iter": [r for r in s]
+            elif kind == "ravel": s.ravel()
+            elif kind == "len": len(s); s.shape; s.size
+            elif kind == "row": s[0]; s[-1:]
+            elif kind == "neg": -s
+    nonempty = [i for i, l in enumerate(q["lens"]) if l > 0]
+    i = nonempty[0]
+    if q["write"] == "cell":
+        src[i, 0] = -99
+        src[nonempty[-1], q["lens"][nonempty[-1]] - 1] = -98
+    elif q["write"] == "row":
+        src[i] = [-7] * q["lens"][i]
+    elif q["write"] == "fill":
+        src.fill(-5)
+    else:
+        src.ravel()[...] = -3
+    return [s.tolist(), [int(x) for x in s.lengths]]
+
+
+REPEAT_OPS = ["argmax", "argmin", "max", "min", "sum", "mean", "any", "cumsum", "sort", "nonzero", "col_counts", "sum0", "argmax", "argmin", "argmax", "argmin", "max", "min"]
+
+
+def _repeat_cases(rng, n):
+    """the same read-only operation twice on the same array, with unrelated allocations of the same sizes made and released in
+    between: the two answers are equal (an answer must not be made of whatever the allocator hands out)"""
+    out = []
+    for _ in range(n):
+        big = rng.random() < 0.2
+        lens = [rng.choice([0, 0, 1, 2, 3]) for _ in range(rng.randint(150, 400) if big else rng.randint(1, 9))]
+        out.append({"rp": {"lens": lens, "dtype": rng.choice(["int64", "float64", "int32", "bool"]), "op": rng.choice(REPEAT_OPS)}})
+    return out
+
+
+def _run_repeat(q):
+    import numpy as np, warnings
+    from npstructures import RaggedArray
+    n = sum(q["lens"])
+    ra = RaggedArray(((np.arange(n) * 7) % 5).astype(q["dtype"]), list(q["lens"]))
+    def op():
+        o = q["op"]
+        with np.errstate(all="ignore"), warnings.catch_warnings():
+            warnings.simplefilter("ignore")
+            if o in ("argmax", "argmin", "max", "min", "sum", "mean", "any"):
+                return np.asarray(getattr(ra, o)(axis=-1))
+            if o == "cumsum":
+                return np.asarray(np.cumsum(ra.astype(np.int64), axis=-1).ravel())
+            if o == "sort":
+                return np.asarray(ra.sort(axis=-1).ravel())
+            if o == "nonzero":
+                return np.concatenate([np.asarray(x) for x in ra.nonzero()])
+            if o == "col_counts":
+                return np.asarray(ra.col_counts())
+            return np.asarray(ra.sum(axis=0)) if n else np.zeros(0)
+    def poison():
+        # blocks of the sizes the operation is likely to ask for, filled with a pattern and released again
+        for m in (len(q["lens"]), n, len(q["lens"]) + 1, n + 1, max(q["lens"] + [1])):
+            for dt in (np.int64, np.float64, np.bool_, np.int32):
+                xs = [np.full(max(m, 1), 85, dtype=dt) for _ in range(3)]
+                del xs
+    def run():
+        try:
+            return op()
+        except Exception:
+            return np.array([-12345])          # (a refusal is an answer too: it has to be repeated)
+    first = run()
+    poison()
+    second = run()
+    poison()
+    third = run()
+    return [first.tobytes() == second.tobytes() and second.tobytes() == third.tobytes(), first.tolist() if first.tobytes() != second.tobytes() else None, second.tolist() if first.tobytes() != second.tobytes() else None]
 
 
 PRINT_READS = ["repr", "str", "repr_row", "repr_sel", "format", "iter", "tolist", "repr_sum", "repr_shape"]
@@ -296,7 +402,7 @@ def _run_mask(q, with_reads):
 
 
 def key(p):
-    if "mk" in p or "pr" in p:
+    if "mk" in p or "pr" in p or "rs" in p or "rp" in p:
         return engine.stable_hash(p)
     if "fl" in p:
         return engine.stable_hash(p)
@@ -304,7 +410,7 @@ def key(p):
 
 
 def nontrivial(p):
-    if "fl" in p or "mk" in p or "pr" in p:
+    if "fl" in p or "mk" in p or "pr" in p or "rs" in p or "rp" in p:
         return True
     kinds = [s["s"] for s in p["prog"]]
     return "assign" in kinds and "select" in kinds
@@ -314,8 +420,10 @@ def distribution(ps):
     fl = [p for p in ps if "fl" in p]
     mk = [p for p in ps if "mk" in p]
     pr = [p for p in ps if "pr" in p]
-    ps = [p for p in ps if "fl" not in p and "mk" not in p and "pr" not in p]
-    return {"print_state_cases": len(pr), "print_cells": gens.hist(sum(p["pr"]["lens"]) for p in pr),
+    rs = [p for p in ps if "rs" in p]; rp = [p for p in ps if "rp" in p]
+    ps = [p for p in ps if "fl" not in p and "mk" not in p and "pr" not in p and "rs" not in p and "rp" not in p]
+    return {"window_then_write_cases": len(rs), "repeat_after_allocations_cases": len(rp), "repeat_ops": gens.hist(p["rp"]["op"] for p in rp),
+            "print_state_cases": len(pr), "print_cells": gens.hist(sum(p["pr"]["lens"]) for p in pr),
             "mask_alias_write_cases": len(mk), "mask_write_kinds": gens.hist(p["mk"]["write"] for p in mk),
             "float_alias_write_cases": len(fl), "float_alias_kinds": gens.hist(p["fl"]["alias"] for p in fl),
             "float_written_values": gens.hist(str(p["fl"]["val"]) for p in fl),
@@ -326,6 +434,18 @@ def distribution(ps):
 
 
 def run_impl(p):
+    if "rs" in p:
+        def hs():
+            plain = _run_slice(p["rs"], False)
+            withreads = _run_slice(p["rs"], True)
+            return {"k": "obs", "equal": {"k": "py", "v": plain == withreads},
+                    "detail": {"k": "py", "v": None if plain == withreads else [plain, withreads]}}
+        return guarded(hs)
+    if "rp" in p:
+        def hr():
+            r = _run_repeat(p["rp"])
+            return {"k": "obs", "equal": {"k": "py", "v": r[0]}, "detail": {"k": "py", "v": None if r[0] else r[1:]}}
+        return guarded(hr)
     if "pr" in p:
         def hp():
             plain = _run_print(p["pr"], False)
@@ -360,6 +480,8 @@ def run_impl(p):
 
 
 def oracle(p):
+    if "rs" in p or "rp" in p:
+        return {"k": "obs", "equal": {"k": "py", "v": True}}
     if "pr" in p:
         return {"k": "obs", "equal": {"k": "py", "v": True}}
     if "mk" in p:
@@ -377,7 +499,7 @@ def _ins_prog(p):
 
 
 def lean_request(p):
-    if "fl" in p or "mk" in p or "pr" in p:
+    if "fl" in p or "mk" in p or "pr" in p or "rs" in p or "rp" in p:
         return None
     # the Lean model runs the history with ONE extra read statement inserted; its observation is dropped afterwards
     from props import c06
